@@ -182,7 +182,9 @@ func (e *Exec) execCall(f *Frame, b *ssa.BasicBlock, instr ssa.Instruction, c *s
 			e.safety("nilfunc", Not(Eq(fv.Term, "0")), reach, "call of nil function value "+c.Value.Name())
 			cc.names = []string{sourceNameOf(c.Value)}
 			e.siteClauses(cc)
-			e.setResult(f, result, e.dynamicCall(cc, fv))
+			dv := e.dynamicCall(cc, fv)
+			e.setResult(f, result, dv)
+			e.bindCallResult(cc, dv)
 			return
 		}
 	}
@@ -1080,8 +1082,10 @@ func sourceNameOf(v ssa.Value) string {
 	case *ssa.FreeVar:
 		return x.Name()
 	case *ssa.UnOp:
-		// load of a captured variable / address-taken local
+		// load of a captured variable / address-taken local / package-level function variable
 		switch a := x.X.(type) {
+		case *ssa.Global:
+			return a.Name()
 		case *ssa.FreeVar:
 			return a.Name()
 		case *ssa.Alloc:
